@@ -211,6 +211,21 @@ class SqlFacts:
                 return base, dyn
         return "{?}", True
 
+    def _loop_texts(self, modname: str, fn: ast.AST, e: ast.AST):
+        """the SQL texts when `e` is the target of an enclosing `for` over a constant sequence of strings, else None"""
+        if not isinstance(e, ast.Name):
+            return None
+        for loop in walk_no_nested(fn):
+            if isinstance(loop, ast.For) and isinstance(loop.target, ast.Name) and loop.target.id == e.id \
+                    and any(x is e for b in loop.body for x in ast.walk(b)):
+                try:
+                    v = self.index.fold(modname, loop.iter)
+                except Unfoldable:
+                    return None
+                if isinstance(v, (tuple, list)) and v and all(isinstance(x, str) for x in v):
+                    return list(v)
+        return None
+
     def _scan(self, mn: str, m, q: str, f: ast.AST) -> None:
         for n in walk_no_nested(f):
             if not (isinstance(n, ast.Call) and isinstance(n.func, ast.Attribute) and n.func.attr in EXEC_METHODS):
@@ -220,8 +235,14 @@ class SqlFacts:
                 continue
             if not n.args:
                 continue
-            text, dyn = self._string_of(mn, f, n.args[0], n.lineno)
-            stmts = [s for s in text.split(";") if s.strip()] if n.func.attr == "executescript" else [text]
+            texts = self._loop_texts(mn, f, n.args[0])
+            if texts is not None:
+                # `for q in (SQL1, SQL2): conn.execute(q)`: one statement per element of the constant sequence
+                dyn = False
+                stmts = texts
+            else:
+                text, dyn = self._string_of(mn, f, n.args[0], n.lineno)
+                stmts = [s for s in text.split(";") if s.strip()] if n.func.attr == "executescript" else [text]
             for s in stmts:
                 d = parse_sql(s)
                 self.statements.append(
